@@ -15,6 +15,10 @@ func main() {
 		e2eChild()
 		return
 	}
+	if vlib.IsChild() && len(os.Args) > 1 && os.Args[1] == "hist" {
+		histChild()
+		return
+	}
 	var replayData []byte
 	replaying := false
 	for i, a := range os.Args {
@@ -34,11 +38,20 @@ func main() {
 	}
 	c18rdma.Run(c, c.Rand("rdma"), c.N(1200, 40000))
 	runE2E(c)
+	runHistory(c)
 	mc := c18rdma.MinCounters()
 	mc["e2e_runs"] = 30
 	mc["e2e_multi_gpu_runs_equal_to_single"] = 20
+	mc["history_runs"] = 100
+	mc["history_readbacks_compared"] = 500
+	mc["history_multi_gpu_histories_with_remote_reads"] = 60
+	mc["history_kernels_reading_remote_pages|timing"] = 40
+	mc["history_rereads_after_reupload_not_touching_reader|timing"] = 8
+	mc["history_rereads_after_reupload_not_touching_reader|emu"] = 40
+	mc["history_magic_copy_only_runs"] = 6
 	c.Finish(vlib.FinishOpts{
-		Rule: "end-to-end case = (integer program: H2D, 1-3 element-wise kernels over a grid of any size incl. a partial last work-group, device-to-device copy of an arbitrary byte count, D2H; placement: 1 GPU | unified device over 2/4 GPUs | plain 2/4 GPUs with both buffers distributed page-wise; emulation or r9nano timing); compared bit-exactly with the single-GPU run and a host reference; non-trivial = multi-GPU placement of a program whose grid has a partial last work-group or whose work-group count is 1 above a multiple of 64. " +
+		Rule: "history case (e2e-history) = (multi-phase host program over 2-3 buffers drawn from {upload of a whole buffer / page-aligned sub-range / arbitrary sub-range, kernel at an abstract launch site: element-wise in place | dst[i] = op(src[window(i)], c) between two buffers | the driver's device-to-device copy kernel, read-back of an intermediate result, re-upload of data kernels have read, further kernels}, every step drained before the next; placement: 1 GPU | everything on GPU 2 of 2 | buffers allocated on / remapped to another GPU than the launching one | buffers distributed page-wise with launches from several GPUs, queues created up front and one code object shared by all GPUs | single pages remapped over 4 GPUs | unified device over 2/4 GPUs; emulation, r9nano timing with DMA copies, r9nano timing with magic copy (copy-only programs)); every read-back compared bit-exactly with a flat program-order shadow (hence equal between placements); a differing element is classified by the step whose effect is missing (stale-after-reupload, stale-after-kernel-write, kernel-write-not-visible, upload-not-visible, wrong-value); programs never let a kernel read data another kernel wrote without a host copy in between (open finding stale-l1-across-kernels); non-trivial = multi-GPU run of a program with >= 2 kernels and a re-upload after a kernel in which some kernel read pages of another GPU; the counter history_rereads_after_reupload_not_touching_reader counts kernels that re-read, on a GPU owning none of the re-uploaded pages, lines that GPU had read before the re-upload with no other copy touching that GPU's pages in between. " +
+			"end-to-end case = (integer program: H2D, 1-3 element-wise kernels over a grid of any size incl. a partial last work-group, device-to-device copy of an arbitrary byte count, D2H; placement: 1 GPU | unified device over 2/4 GPUs | plain 2/4 GPUs with both buffers distributed page-wise; emulation or r9nano timing); compared bit-exactly with the single-GPU run and a host reference; non-trivial = multi-GPU placement of a program whose grid has a partial last work-group or whose work-group count is 1 above a multiple of 64. " +
 			"RDMA scenario = (2-4 real rdma.Comp engines on one outside connection, buffer sizes, per-cycle widths, 1-2 L1 requesters and " +
 			"1-2 L2 memories per engine with random latency/reordering/stalls, streams of reads / writes / masked writes to other engines' memory, " +
 			"0-3 drain-all / restart-all rounds at random points); non-trivial = distinct scenario with every transaction checked end to end, " +
@@ -47,6 +60,8 @@ func main() {
 			"control traffic follows driver + command processor: DrainReq to every engine, RestartReq only after every DrainRsp, next round only after every RestartRsp",
 			"L1 side only sends addresses owned by other engines (l1AddressMapper.ModuleForOtherAddresses); addresses are unique per request so that a trace entry identifies its request",
 			"fake L2s answer every request exactly once with the id of the request they received; read data = f(address, arrival serial)",
+			"history programs: all buffers are allocated (and remapped / distributed) before the first upload and the first launch; page size 4 KiB, 64 CUs per GPU, work-group size 64 (used only for the accounting of what a run exercised, not by the oracle)",
+			"timing platform built WithMagicMemoryCopy is only given copy-only programs: copies there bypass the caches by design (open C02 finding variant:magic-copy), so kernel results are not comparable",
 			"open transaction of an engine = forwarded on its RDMARequestOutside and not yet answered on its RDMARequestInside, or taken from its RDMADataOutside and not yet answered there",
 		},
 		MinNontrivial: 40,
